@@ -301,18 +301,23 @@ def parse_debug(msgs):
 
 
 def fdwra_near_tie(dbg, n, dfn, peak_sets, scale):
-    """True when some decision of the run (zero guards, convergence limits, accept bounds) is within rounding
-    distance of its threshold: in exact arithmetic it is decided one way, in floating point either way."""
+    return fdwra_near_tie_index(dbg, n, dfn, peak_sets, scale) is not None
+
+
+def fdwra_near_tie_index(dbg, n, dfn, peak_sets, scale):
+    """index of the first iteration in which some decision (zero guards, convergence limits, accept bounds) is within
+    rounding distance of its threshold: in exact arithmetic it is decided one way, in floating point either way"""
     eps = 1e-9
-    for it in dbg:
+    dfn = {"log-normal": "lognormal"}.get(dfn, dfn)
+    for j, it in enumerate(dbg):
         for k in ("std_fn_before", "std_fn_after"):
             if k in it and abs(it[k]) < eps:
-                return True
+                return j
         if "diff_before" in it and abs(it["diff_before"]) < eps * scale:
-            return True
+            return j
         for k in ("d_diff", "s_diff"):
             if k in it and abs(it[k] - 0.01) < 1e-7:
-                return True
+                return j
         if "mean_fn_before" in it and "std_fn_before" in it:
             m, sd = it["mean_fn_before"], it["std_fn_before"]
             if m == m and sd == sd:
@@ -323,8 +328,8 @@ def fdwra_near_tie(dbg, n, dfn, peak_sets, scale):
                 for peaks in peak_sets:
                     for f in peaks:
                         if f == f and (abs(f - lo) <= 1e-9 * scale or abs(f - hi) <= 1e-9 * scale):
-                            return True
-    return False
+                            return j
+    return None
 
 
 def fdwra_with_trace(obj, n, maxit, dfn, dmc, rng_):
@@ -348,6 +353,7 @@ def fdwra_with_trace(obj, n, maxit, dfn, dmc, rng_):
     hs = obj.hvsrs if isinstance(obj, hvsrpy.HvsrAzimuthal) else [obj]
     peak_sets = [list(getattr(h, "_main_peak_frq", [])) for h in hs]
     near = fdwra_near_tie(dbg, n, dfn, peak_sets, float(np.max(obj.frequency)))
+    fdwra_with_trace.last_index = fdwra_near_tie_index(dbg, n, dfn, peak_sets, float(np.max(obj.frequency)))
     return ret, dbg, near
 
 
@@ -414,7 +420,9 @@ class Mirror:
         ret, dbg, near = fdwra_with_trace(self.obj, n, maxit, dfn, dmc, rng_)
         self.last_debug = dbg
         self.last_near_tie = near
-        self.lines.append(f"hv.fdwra {self.oid} {hexf(n)} {maxit} {dfn} {dmc} {fopt(rng_[0])} {fopt(rng_[1])}")
+        self.last_near_index = fdwra_with_trace.last_index
+        canon = {"log-normal": "lognormal"}
+        self.lines.append(f"hv.fdwra {self.oid} {hexf(n)} {maxit} {canon.get(dfn, dfn)} {canon.get(dmc, dmc)} {fopt(rng_[0])} {fopt(rng_[1])}")
         return ret
 
     def state_line(self):
